@@ -27,7 +27,7 @@ var rawCT = []string{"garbage", "a/b/c", "/", "text/plain; charset", "text/plain
 
 var headerNames = []string{"X-Multi", "X-Multi", "x-multi", "x-lower", "X-Request-Id", "ETag", "Cache-Control", "Set-Cookie", "WWW-Authenticate", "Retry-After", "Link", "Vary", "Content-Language", "Date", "Server", "Content-Disposition", "X-Empty", "Location", "Content-Encoding"}
 
-var headerValues = []string{"a", "b", "1", `W/"etag"`, "no-cache, no-store", "k=v; Path=/", `Basic realm="x"`, "120", `</next>; rel="next"`, "ü", "a,b", "two  spaces", "=?utf-8?q?x?=", "", "x", "identity", "Thu, 01 Jan 1970 00:00:00 GMT", "tok-0-"}
+var headerValues = []string{"a", "b", "1", `W/"etag"`, "no-cache, no-store", "k=v; Path=/", `Basic realm="x"`, "120", `</next>; rel="next"`, "ü", "a,b", "two  spaces", "=?utf-8?q?x?=", "", "x", "identity", "Thu, 01 Jan 1970 00:00:00 GMT", "tok-0-", "gzip", "gzip", "br"} // gzip: with Content-Encoding, what a transport that did not inflate leaves in place (r6)
 
 var statuses = []int{200, 200, 200, 201, 202, 203, 204, 204, 205, 206, 226, 299, 300, 301, 302, 303, 304, 307, 308, 399, 400, 401, 403, 404, 409, 418, 422, 429, 499, 500, 502, 503, 599}
 
@@ -134,6 +134,13 @@ func genCall(t *rapid.T, c *Case, maxBody int) Call {
 		call.BodyHead = rapid.SampledFrom([]string{"", "", "", "", "bom", "bom16", "gzip", "zip"}).Draw(t, "bodyhead")
 	}
 	call.ReaderErr = rapid.IntRange(0, 7).Draw(t, "readererr") == 0
+	if rapid.IntRange(0, 5).Draw(t, "default-media-type-changed-before-the-call") == 0 {
+		if rapid.Bool().Draw(t, "new-default-registered") {
+			call.NewDefaultMT = rapid.SampledFrom(registrable).Draw(t, "new-defmt")
+		} else {
+			call.NewDefaultMT = rapid.SampledFrom(foreign).Draw(t, "new-defmt")
+		}
+	}
 	return call
 }
 
@@ -169,6 +176,7 @@ func genRuntime(t *rapid.T) Case {
 		c.DefaultMT = rapid.SampledFrom(foreign).Draw(t, "defmt")
 	}
 	c.RtClient = rapid.SampledFrom([]string{"transport", "transport", "client"}).Draw(t, "rtclient")
+	c.InPlace = rapid.IntRange(0, 2).Draw(t, "consumers-registered-in-place") == 0
 	c.Debug = rapid.IntRange(0, 3).Draw(t, "debug") == 0
 	c.RtCtx = rapid.SampledFrom([]string{"live", "live", "live", "nil", "cancelled", "expired", "soon", "soon"}).Draw(t, "rtctx")
 	return c
@@ -199,6 +207,7 @@ func GenConcurrent(t *rapid.T) Case {
 	}
 	for i := 0; i < n; i++ {
 		c.Calls = append(c.Calls, genCall(t, &c, 9000))
+		c.Calls[i].NewDefaultMT = "" // configuration is not changed while calls are in flight
 	}
 	return c
 }
@@ -231,6 +240,19 @@ func Classify(c Case) (bool, []string) {
 		lab["default media type unregistered"] = true
 	}
 	lab["runtime-level client: "+c.RtClient] = true
+	if c.InPlace {
+		lab["consumers registered in place on the map New returned"] = true
+	}
+	if !c.Concurrent {
+		for i := range c.Calls {
+			if c.Calls[i].NewDefaultMT != "" && i > 0 {
+				lab["default media type changed between two calls"] = true
+				if !c.Calls[i].HasCT && !c.Calls[i-1].HasCT {
+					lab["default media type changed between two responses without Content-Type"] = true
+				}
+			}
+		}
+	}
 	if c.Debug {
 		lab["debug mode"] = true
 	}
